@@ -34,7 +34,7 @@ class Unit:
                  entry=None, loops=None, kind="P", tier="quick", timeout=300,
                  unwind=None, unwindset=(), flags=(), defines=(), leak=False,
                  reach=0, note="", bound="", assumed=(), solver=None, extra_src=(),
-                 nochecks=False, rec=False, objbits=10, shards=1, late_unwind=None, resplit=0, drop=(), unwind_cut=()):
+                 nochecks=False, rec=False, objbits=10, shards=1, late_unwind=None, resplit=0, drop=(), unwind_cut=(), no_overflow=False):
         self.name = name
         # props: {property_id: regex over obligation names that count for it}
         self.props = props if isinstance(props, dict) else {p: ".*" for p in props}
@@ -66,6 +66,7 @@ class Unit:
         self.resplit = resplit
         self.drop = list(drop)
         self.unwind_cut = list(unwind_cut)
+        self.no_overflow = no_overflow
 
 
 def load_units():
@@ -305,6 +306,9 @@ def run_unit(u, scratch, want_trace=True):
         return r
     r["instrument_s"] = round(dt, 2)
     flags = [] if u.nochecks else list(BASE_CHECKS)
+    if u.no_overflow:
+        flags = [f for f in flags if f not in ("--signed-overflow-check", "--pointer-overflow-check")]
+        flags.append("--no-signed-overflow-check")  # CBMC 6 turns the standard checks on by default
     if u.leak:
         flags.append("--memory-leak-check")
     if u.late_unwind is not None:
